@@ -56,6 +56,94 @@ def diff(ctx, programs, prop, broken, opts=None, known_signatures=()):
     return {"failures": failures, "compared": compared}
 
 
+def diff_lines(ctx, lines, real, broken, what="history", payload_of=None):
+    """lines: raw case lines already executed on the implementation (results `real`). Every S/C step of every case is compared with
+    the reference interpreter's answer for the same case line (status, error kind, printed lines, messages)."""
+    if not available():
+        return {"failures": [], "compared": 0}
+    try:
+        spec = run_spec(lines)
+    except Exception as e:
+        broken.append("reference interpreter driver (%s): %s" % (what, e))
+        return {"failures": [], "compared": 0}
+    failures = []
+    compared = 0
+    for i, (line, r, sp) in enumerate(zip(lines, real, spec)):
+        rs = r.get("steps") if isinstance(r, dict) else None
+        ss = sp.get("steps") if isinstance(sp, dict) else None
+        if not rs or not ss:
+            continue
+        for j, (a, b) in enumerate(zip(rs, ss)):
+            if b.get("status") not in ("ok", "err") or b.get("unordered"):
+                if b.get("status") == "timeout":
+                    break
+                continue
+            ca, cb = progs.canon_step(a), canon_spec_step(b)
+            compared += 1
+            if ca != cb:
+                f = {"what": "the implementation and the reference interpreter disagree at step %d of a %s" % (j, what), "case_line": line,
+                     "step_index": j, "implementation": ca, "reference": cb, "signature": "impl-vs-spec %s %s" % (what, first_difference(ca, cb)),
+                     "failing_input": True}
+                if payload_of:
+                    f.update(payload_of(i))
+                failures.append(f)
+                break
+    return {"failures": failures, "compared": compared}
+
+
+def replay_line(ctx, payload):
+    real = vlib.run_real(ctx.runner, [payload["case_line"]])
+    out = diff_lines(ctx, [payload["case_line"]], real, [])
+    return not out["failures"], json.dumps(out["failures"][:1])[:1500]
+
+
+COMPOUND = ("+=", "-=", "*=", "/=", "%=", "&=", "|=", "^=", "<<=", ">>=")
+
+
+def compile_and_scan_diff(ctx, cases, broken):
+    """cases: [(name, src)]. Compares, for every source text, the token stream (SCAN) and the compile result (C: accepted, or the
+    full list of located messages) of the implementation with those of the reference scanner/parser.  Skipped for the compile
+    comparison only: sources with a compound assignment (ledger F24) and results that mention attributes (#[a, b] lives in a
+    randomly seeded hash map in the implementation, so which unsupported attribute is reported first is not determined)."""
+    if not available():
+        return {"failures": [], "scan_compared": 0, "compile_compared": 0}
+    lines = [vlib.case_line("d%d" % i, ["SCAN:" + vlib.hx(src), "C:" + vlib.hx(src)]) for i, (_, src) in enumerate(cases)]
+    real = vlib.run_real(ctx.runner, lines, timeout_per_batch=300, batch=400)
+    try:
+        spec = run_spec(lines)
+    except Exception as e:
+        broken.append("reference interpreter driver (scan/compile): %s" % e)
+        return {"failures": [], "scan_compared": 0, "compile_compared": 0}
+    failures = []
+    n_scan = n_comp = 0
+    for (name, src), r, sp in zip(cases, real, spec):
+        rs = r.get("steps") if isinstance(r, dict) else None
+        ss = sp.get("steps") if isinstance(sp, dict) else None
+        if not rs or not ss or len(rs) < 2 or len(ss) < 2:
+            continue
+        if "tokens" in rs[0] and "tokens" in ss[0]:
+            n_scan += 1
+            if rs[0]["tokens"] != ss[0]["tokens"]:
+                k = next((i for i, (a, b) in enumerate(zip(rs[0]["tokens"], ss[0]["tokens"])) if a != b), min(len(rs[0]["tokens"]), len(ss[0]["tokens"])))
+                failures.append({"what": "the scanner and the reference scanner produce different token streams (first difference at token %d: %s / %s)"
+                                         % (k, rs[0]["tokens"][k:k + 1], ss[0]["tokens"][k:k + 1]), "name": name, "program": src[:3000], "kind": "scan",
+                                 "signature": "scan: token streams differ", "failing_input": True})
+                continue
+        if any(op in src for op in COMPOUND):
+            continue
+        a = (rs[1].get("status"), tuple(rs[1].get("messages") or []))
+        b = (ss[1].get("status"), tuple(ss[1].get("messages") or []))
+        if a[0] not in ("ok", "err") or b[0] not in ("ok", "err"):
+            continue            # panics / hangs of the implementation are reported by the caller; timeouts of (S) are inconclusive
+        if any("attribute" in m for m in a[1] + b[1]):
+            continue
+        n_comp += 1
+        if a != b:
+            failures.append({"what": "the compiler and the reference parser disagree: %s / %s" % (str(a)[:300], str(b)[:300]), "name": name, "program": src[:3000],
+                             "kind": "compile", "signature": "compile: implementation and reference disagree (%s/%s)" % (a[0], b[0]), "failing_input": True})
+    return {"failures": failures, "scan_compared": n_scan, "compile_compared": n_comp}
+
+
 def first_difference(a, b):
     if a[0] != b[0]:
         return "status %s/%s" % (a[0], b[0])
